@@ -2,7 +2,7 @@
 spec/HttpRead.tla (docs/serving-data.rst): flat chunk URL -> flat file or, by
 the rewrite rule, the deep-layout file; name.gz answers name with
 Content-Encoding: gzip (gzip_static); Range + HEAD support; per-request
-scripted behaviour (Normal | NotFound | ServerError | ShortRange | LongRange |
+scripted behaviour (Normal | NotFound | ServerError | ErrorPageFit | ShortRange | LongRange |
 IgnoreRange | Drop)."""
 import os
 import re
@@ -67,6 +67,20 @@ class Handler(BaseHTTPRequestHandler):
             except OSError:
                 pass
             self.close_connection = True
+            return
+        if beh == "ErrorPageFit":
+            # a gateway's canned error page whose length happens to equal the length the
+            # client asked for (ranged GET) or the length of the resource (plain GET)
+            entry["applied"] = beh
+            m = re.match(r"bytes=(\d+)-(\d+)$", rng or "")
+            if m:
+                n = int(m.group(2)) - int(m.group(1)) + 1
+            else:
+                fp0, _enc0 = self._resolve(path)
+                n = os.path.getsize(fp0) if fp0 else 64
+            page = (b"<html><body>503 Service Unavailable</body></html>\n" * (n // 40 + 1))[:max(n, 0)]
+            self._reply(503, b"" if method == "HEAD" else page, {}, method)
+            entry["status"] = 503
             return
         if beh in ("NotFound", "ServerError", "Forbidden") or beh.startswith("Status"):
             entry["applied"] = beh
